@@ -25,11 +25,13 @@ RULE = ("(a) exhaustive: every extent n<=N and process count p<=n (quick N=96, t
         "starts/ends/shape/size/max_block_shape/fullShape agree; (b) seeded random 2-4-D layouts with 1-3 distributed "
         "directions and every rank coordinate; (c) real Grid objects on 1-12 simulated ranks in every layout: getCoords, "
         "getEta, getCoordVals, getGlobalIdxVals, getGlobalIndices checked against the unique-id field and coordinate "
-        "arrays, bufferSize >= every block.  A class is (n mod p = 0|!=0, p=1|p=n|other) for (a), (ndims, #distributed, "
+        "arrays, bufferSize >= every block; (d) LayoutSwappers joining small layout groups (one or two orderings each, less- or "
+        "more-distributed group listed first, uneven extents) moved with arrays of exactly the advertised bufferSize (moves judged by the "
+        "C03 machinery).  A class is (n mod p = 0|!=0, p=1|p=n|other) for (a), (ndims, #distributed, "
         "even|uneven) for (b) and (accessor, grid pattern, even|uneven) for (c).")
 ASSUMPTIONS = ["simulated MPI layer for the Grid part (self-tested)", "exhaustive only inside the stated (n,p) box",
                "numpy bounds checking makes writes beyond an exact-size buffer impossible; insufficiency shows as shape errors/wrong data (C01/C03 run with exact-size buffers)"]
-REQUIRED_EVENTS = {"layouts_checked": 1, "accessor_getEta": 1, "accessor_getCoords": 1, "accessor_getGlobalIndices": 1}
+REQUIRED_EVENTS = {"layouts_checked": 1, "accessor_getEta": 1, "accessor_getCoords": 1, "accessor_getGlobalIndices": 1, "swapper_buffer_moves_ok": 1}
 
 
 def _check_dim(L, i, n, p, k):
@@ -76,6 +78,8 @@ def gen_cases(tier, seed):
         cases.append({"kind": "multi", "seed": seed * 104729 + k, "n": 40, "cost": 3})
     for k in range(60 if tier == "quick" else 800):
         cases.append({"kind": "grid", "seed": seed * 15485863 + k, "Pmax": 6 if tier == "quick" else 12, "cost": 10})
+    for k in range(150 if tier == "quick" else 4000):
+        cases.append({"kind": "swapbuf", "seed": seed * 32452843 + k, "cost": 8})
     return cases
 
 
@@ -88,7 +92,49 @@ def run_case(case):
         return _multi(case, lay)
     if case["kind"] == "grid":
         return _grid(case, lay)
+    if case["kind"] == "swapbuf":
+        return _swapbuf(case, lay)
     return result(INCO, what="unknown kind")
+
+
+def _swapbuf(case, lay):
+    """The advertised buffer size of a LayoutSwapper that joins SMALL layout groups (one or two orderings each, listed in
+    any order, so that no other group's block hides an undersized gather/scatter buffer): arrays of exactly that size
+    must carry every move (the moves themselves are judged by the C03 machinery: exact-size guarded arrays, unique ids)."""
+    import itertools
+    from checks import c03
+    rng = random.Random(case["seed"])
+    nd = 3
+    perms = [list(q) for q in itertools.permutations(range(nd))]
+    rng.shuffle(perms)
+    p0, p1 = rng.choice([(2, 2), (3, 2), (2, 3), (2, 1), (1, 2), (3, 1), (1, 3), (4, 2), (2, 4), (3, 3)])
+    g2 = {"two%d" % i: perms.pop() for i in range(rng.choice([1, 1, 2]))}
+    which = rng.choice([0, 1])
+    g1 = {"one%d" % i: perms.pop() for i in range(rng.choice([1, 1, 2]))}
+    groups, procs = [g2, g1], [[p0, p1], (p0, p1)[which]]
+    if rng.random() < 0.6:
+        groups, procs = groups[::-1], procs[::-1]
+    req = [1] * nd
+    for g, pr in zip(groups, procs):
+        for o in g.values():
+            for i, n in enumerate([pr] if isinstance(pr, int) else pr):
+                req[o[i]] = max(req[o[i]], n)
+    shape = [int(rng.choice([r + 1, 2 * r + 1, 2 * r - 1 if r > 1 else 3, r + rng.randint(0, 6)])) for r in req]
+    cfg = {"template": "random", "perturbed": True, "p": [p0, p1], "groups": groups, "procs": procs, "start": next(iter(groups[0])), "shape": shape,
+           "dtype": rng.choice(["float", "complex"])}
+    r = c03.run_case({"kind": "cfg", "cfg": cfg, "must_accept": False, "sched_seed": case["seed"] % 1000, "walk": 12})
+    ev = dict(r.get("events") or {})
+    ev["swapper_buffer_configs"] = 1
+    cls = ["swapper-buffer/%s-first/%dx%d" % ("less-distributed" if isinstance(procs[0], int) else "more-distributed", p0, p1)]
+    if r["status"] == VIOL:
+        if r.get("key") == c03.KEY_SAME_NDIST:
+            return result(SKIP, cls=cls, events=ev, what="grouping belongs to the recorded C03 finding (not a buffer-size question)")
+        return result(VIOL, cls=cls, events=ev, key="C02:swapper-buffer/%s" % str(r.get("key", "")).split(":", 1)[-1],
+                      what="LayoutSwapper with small groups, arrays of exactly the advertised bufferSize: %s" % r.get("what"), witness={"case": case, "cfg": cfg, "c03": r.get("witness")})
+    if r["status"] != HELD or any(c.startswith("refused") for c in r.get("cls", [])):
+        return result(SKIP, cls=cls, events=ev, what="grouping refused by the constructor or skipped")
+    ev["swapper_buffer_moves_ok"] = int(ev.get("hops_compared", 0))
+    return result(HELD, cls=cls, events=ev, n_eval=max(1, ev["swapper_buffer_moves_ok"]))
 
 
 def _box(case, lay):
